@@ -49,6 +49,7 @@ class E1Session(SessionBase):
         self.did_noise = False
         self.did_mux = False
         self.out_of_domain = False
+        self.tainted = set()
 
     def world_summary(self):
         return worlds.summary(self.world) if self.world.get('kind') == 'net' else self.world
@@ -411,7 +412,9 @@ class E1Session(SessionBase):
                 self.st.probes['aborted_propagation_at_a_transceiver_holding_figures'] += 1
             if not self.out_of_domain:
                 for trx in (path[0], path[-1]):
-                    self._check_reported(trx, ':after-aborted-propagation')
+                    # figures left by an earlier propagation that had left the property's domain are not judged
+                    if trx.uid not in self.tainted:
+                        self._check_reported(trx, ':after-aborted-propagation')
             return {'kind': 'aborted'}
         except (ValueError, SpectrumError, ServiceError, IndexError, TypeError, KeyError) as e:
             self.st.notes[f'propagation_refused:{type(e).__name__}'] += 1
@@ -420,6 +423,9 @@ class E1Session(SessionBase):
             TAP.reset()
         if fault_at is not None:
             self.st.notes['armed_fault_did_not_fire'] += 1
+        if not copy:
+            for trx in (path[0], path[-1]):
+                (self.tainted.add if self.out_of_domain else self.tainted.discard)(trx.uid)
         if self.out_of_domain:
             return {'kind': 'left-the-domain-of-the-property'}
         # the figures every transceiver on the path *reports* (source included) obey the identity
